@@ -358,3 +358,34 @@ func DecodeFunc(msg any) func(*bytes.Buffer) error {
 func RawFactory(p *refmodel.Proto, tab *refmodel.Table) any {
 	return factories[p.Protocol+"."+tab.Factory]
 }
+
+// AddSpare gives every slice reachable from the real message m (through pointers, structs and interfaces) `extra`
+// elements of spare capacity holding zero values (nil pointers for lists of objects): the receiver a caller gets by
+// pre-allocating its lists (make([]*T, n, n+extra)) or that append's doubling leaves behind.
+func AddSpare(m any, extra int) {
+	var walk func(v reflect.Value)
+	walk = func(v reflect.Value) {
+		switch v.Kind() {
+		case reflect.Ptr, reflect.Interface:
+			if !v.IsNil() {
+				walk(v.Elem())
+			}
+		case reflect.Struct:
+			for i := 0; i < v.NumField(); i++ {
+				if v.Field(i).CanSet() || v.Field(i).Kind() == reflect.Ptr || v.Field(i).Kind() == reflect.Interface {
+					walk(v.Field(i))
+				}
+			}
+		case reflect.Slice:
+			if v.CanSet() {
+				ns := reflect.MakeSlice(v.Type(), v.Len(), v.Len()+extra)
+				reflect.Copy(ns, v)
+				v.Set(ns)
+			}
+			for i := 0; i < v.Len(); i++ {
+				walk(v.Index(i))
+			}
+		}
+	}
+	walk(reflect.ValueOf(m))
+}
